@@ -26,6 +26,21 @@ CLAIMED = {
         "level": "For every await between opening and closing an endpoint the close is reached on the exceptional edge too; every endpoint attribute is closed before it is dropped; every add_task key has a cancel reachable from reset/exit; handlers that can catch CancelledError re-raise on all paths; no timed wait sits in a finally of a task coroutine; observers are detached in disconnect. Three genuine defects found by these rules were repaired (fix: commits).",
         "note": "NOT decided: late effects through references invisible to the analysis (e.g. a client keeping an accessor), promptness in seconds. Clean-up statements inside a finally are assumed not to raise.",
     },
+    "C01": {
+        "technique": "CFG edge-dominance guards of the install/append sites, reaching re-initialisation per attempt, loop-variant rule; residue-indexed affine abstract domain for the simulator's segment-chain modulus",
+        "level": "Assembly discipline of both structure classes decided on every path: install only under (delivered, in-sequence, final segment); append only in sequence; success only after install, failure never after; fresh accumulators before every (re)send; bounded attempts. The simulator's chain arithmetic is decided for EVERY length by evaluating modulus and segment count symbolically per residue mod 39 (found and repaired the L%39==0 defect).",
+        "note": "NOT decided: success/failure under concrete loss, duplication, re-order and delay patterns (fault sequences are runtime); delayed segments of an earlier transfer accepted by a later one. STATU/STATV byte layouts are C04's.",
+    },
+    "C05": {
+        "technique": "dominance of the per-message reset over the decode loop; post-dominance of clear-after-apply; loop-shape rules for in-order, unconditional application; single-acknowledgement path rule with provenance of the sequence byte",
+        "level": "Structural necessary conditions on both stacks: changes list reset per STATP (async) / cleared after apply on every normal path (sync); apply loops iterate front-to-back, unconditionally, once per element; exactly one STATQ ack per STATP, not for STATQ, protocol-range counter, addressed to sender.",
+        "note": "NOT decided: interleavings of partial updates with refreshes over arbitrary histories; an observer raising inside the sync apply loop (skips the for-else clear).",
+    },
+    "C06": {
+        "technique": "loop-variant rule + one-send-per-iteration path rule on the retry loop; lexical lock-scope rule for every wait/send site in the async stack; who-may-send layering; iteration-guard (edge-dominance) rule for the connected/ping gates",
+        "level": "Decides: retry loop strictly bounded by retry_count with a freshly built request and exactly one send per attempt; a reply is returned only on the delivered edge; every wait_for_response and request send is inside `async with protocol.Lock`; only queue_send touches the transport; all 6 command/query methods are gated by is_connected and is_responding_to_pings.",
+        "note": "NOT decided (runtime quantities): the N x (timeout+pause) time bound, FIFO service order of asyncio.Lock, starvation/stalls. asyncio.Lock FIFO hand-over and cooperative scheduling are assumed.",
+    },
 }
 
 NOT_APPLICABLE = {f"C{n:02d}": PENDING for n in range(1, 21) if f"C{n:02d}" not in CLAIMED}
